@@ -44,7 +44,7 @@ type cliCase struct {
 func (c cliCase) inputTokens(withAttrs bool) string {
 	a := c.a
 	if withAttrs && (c.call == "PeerAdd" || c.call == "PeerRm" || c.call == "Pin" || c.call == "Unpin" ||
-		c.call == "Allocation" || c.call == "Status" || c.call == "Recover") {
+		c.call == "Allocation" || c.call == "Status" || c.call == "Recover" || c.call == "Metrics") {
 		a = segAttrs(a)
 	}
 	if withAttrs && (c.call == "PinPath" || c.call == "UnpinPath") {
@@ -406,6 +406,9 @@ func genOptsTok(r *common.Rng, rich bool) string {
 func genPathTok(r *common.Rng) string {
 	base := "c" + strconv.Itoa(r.Intn(cidU))
 	tail := pathTails[r.Intn(len(pathTails))]
+	if r.Chance(1, 8) {
+		tail = append(append([]string{}, tail...), "odd"+strconv.Itoa(r.Range(1, 6))) // a file name with URL-significant characters
+	}
 	switch weighted(r, 6, 2, 2, 2, 1, 1) {
 	case 0:
 		return strings.Join(append([]string{"ipfs", base}, tail...), "/")
@@ -468,6 +471,9 @@ func genCli(r *common.Rng, call string) cliCase {
 		c.l = b01(r.Bool())
 	case "Metrics":
 		c.a = metricNames[r.Intn(4)]
+		if r.Chance(1, 6) {
+			c.a = "odd" + strconv.Itoa(r.Range(1, 6))
+		}
 	}
 	return c
 }
